@@ -247,7 +247,7 @@ func checkC18(c *Ctx) {
 			if IsCallTo(call, "go.uber.org/zap.Inline") && has[`attr.Key == ""`] {
 				inline = true
 			}
-			if IsCallTo(call, "go.uber.org/zap.Object") && !(has[`attr.Key != ""`] && has["len(Group(attr.Value)) != 0"]) {
+			if IsCallTo(call, "go.uber.org/zap.Object") && !(has[`attr.Key != ""`] && has["len(Group(attr.Value)) > 0"]) {
 				emptyGroup = false
 			}
 		}
